@@ -83,3 +83,15 @@ Fixpoint in_scope (s : schema) : bool :=
     forallb (fun v => body_in_scope in_scope (snd (fst v)) (snd v)) vs
     && names_distinct (map (fun v => fst (fst v)) vs)
   end.
+
+(* sequences and maps of moderate length: beyond this the decoder's loop is only bounded by
+   the input when elements occupy at least one byte (see Dyn.loop_fuel and known finding F9) *)
+Fixpoint small_seqs (v : nvalue) : bool :=
+  match v with
+  | NSome x | NNewtypeStruct _ x | NVariant _ _ _ x => small_seqs x
+  | NSeq xs => (N.of_nat (length xs) <=? 65536) && forallb small_seqs xs
+  | NTuple xs | NTupleStruct _ xs => forallb small_seqs xs
+  | NStruct _ fs => forallb (fun f => small_seqs (snd f)) fs
+  | NMap kvs => (N.of_nat (length kvs) <=? 65536) && forallb (fun kv => small_seqs (fst kv) && small_seqs (snd kv)) kvs
+  | _ => true
+  end.
